@@ -23,10 +23,15 @@ def head(x):
 def probe_ok(prog):
     """every element of the program is specified exactly, and no requirement is added after a resource constraint"""
     seen_rc = False
+    used = set()
+    selects = {}
     for op in prog:
         h = head(op)
         if h not in PLAIN_OPS:
             return False
+        if h == 'ONewSelect':
+            # listed resources: ('RW', wref) | ('RC', cumulative)
+            selects[repr(op[1])] = [repr(x[1]) if x[0] == 'RW' else 'cumulative %r' % (x[1],) for x in op[2]]
         if h == 'ONewConstraint':
             if op[2]:                      # optional constraint: its meaning is "applied => ..."
                 return False
@@ -43,6 +48,22 @@ def probe_ok(prog):
         if h == 'OAddRequired':
             if seen_rc:
                 return False
+            # one requirement per (task, worker): a worker reached twice by one task (directly, through two selections
+            # that share it, ...) gets one pair of busy variables for two roles -- outside what Spec.v describes
+            arg = op[2]
+            if arg[0] == 'ArgS':
+                ws = selects.get(repr(arg[1]))
+                if ws is None:
+                    return False
+            elif arg[0] == 'ArgC':
+                ws = ['cumulative %r' % (arg[1],)]
+            else:
+                ws = [repr(arg[1])]
+            for w in ws:
+                k = (repr(op[1]), w)
+                if k in used:
+                    return False
+                used.add(k)
             # dynamic assignments and delays are specified, but the pinned busy interval of a dynamic one is a choice
             # of the schedule: keep them
     return True
@@ -138,6 +159,9 @@ def probe(z3, compare, prog, A, ma, sp, seed, tries=3, timeout_ms=8000):
         iv = {a: b for a, b in val.items() if isinstance(b, int) and not isinstance(b, bool)}
         bv = {a: b for a, b in val.items() if isinstance(b, bool)}
         pins = schedule_pins(iv, bv)
+        # a busy interval that ends before it starts (delay_in + early_out beyond the duration: finding F26) is not a schedule
+        if any(k.endswith('_start') and '_busy_' in k and pins.get(k[:-6] + '_end', v) < v for k, v in pins.items()):
+            continue
         sig = tuple(sorted(pins.items()))
         if sig in seen:
             continue
